@@ -1,4 +1,5 @@
 """C15 - conflict resolution only trims inside the overlap and leaves no shared label."""
+from vf import core
 from vf import direct, e2e, gen, hooks, pipeline
 from vf.core import Shard, rng_for
 
@@ -125,7 +126,7 @@ def run_shard(spec):
             else:
                 case = gen.pipeline_case(rng, ['noisy', 'indel', 'indel', 'chimeric', 'partial'], param_prob=0.6,
                                          param_keys=('d', 'ms', 'bs', 'sj', 'ss', 'p'), ref_kw={'repeats': rng.random() < 0.4})
-            judge_e2e(case, spec['workdir'], sh)
+            core.isolated(judge_e2e, sh, case, spec['workdir'])
     if hooks.MONITOR_ERRORS:
         sh.inconclusive.append('monitor errors: %s' % hooks.MONITOR_ERRORS[:3])
     return sh
